@@ -220,3 +220,17 @@ w("args4", """def main(a: i64, b: i64, c: i64, d: i64): i64 {
   ((a - b) * c) - d
 }
 """)
+
+# ---- cyclic permutations of 7..10 live variables through calls (parallel moves with cycles through registers AND spill slots)
+for k in (7, 8, 9, 10):
+    ps = [f"v{i}" for i in range(k)]
+    params = ", ".join(f"{v}: i64" for v in ps)
+    rot1 = ", ".join(ps[-1:] + ps[:-1])          # rotate right by one
+    rot3 = ", ".join(ps[-3:] + ps[:-3])          # rotate right by three
+    swap = ", ".join(ps[:-3] + [ps[-2], ps[-1], ps[-3]])   # rotate only the last three
+    digits = ps[0]
+    for v in ps[1:]: digits = f"(({digits} * 10) + {v})"
+    body = lambda r, name: f"def {name}({params}, n: i64): i64 {{ if n == 0 {{ {digits} }} else {{ {name}({r}, n - 1) }} }}\n"
+    args = ", ".join(str(i + 1) for i in range(k))
+    w(f"rot{k}", body(rot1, "r1") + body(rot3, "r3") + body(swap, "sw") +
+      f"def main(n: i64): i64 {{ println_i64(r1({args}, n)); println_i64(r3({args}, n)); println_i64(sw({args}, n)); println_i64(r1({args}, 1)); println_i64(sw({args}, 2)); 0 }}\n")
